@@ -27,7 +27,7 @@ PROPERTY = "C06"
 RULE = ("schemas: gen/schema.py (sizes 1-3, + subscription root); documents valid by construction (operations, nested "
         "fragments, inline fragments, variables shared between operations through fragments, directives, input objects, "
         "mergeable duplicate fields); each then gets every applicable one of 46 labelled single-rule violations (incl. fragment cycles through the sub-selection of a field, variables INSIDE list literals, depth 1-2, below object fields) "
-        "(26 rule visitors / 26 specification rules) and 8 metamorphic transformations; non-trivial = distinct "
+        "(26 rule visitors / 26 specification rules) and 8 metamorphic transformations; + a NAMED re-spelling probe independent of the seed (3 fixed documents x every separator of valid_ops.SEPS - comments ended by LF / CRLF / lone CR, BOM, commas - after every token, between the definitions, at the end; a re-spelling that no longer parses counts as a changed verdict); non-trivial = distinct "
         "(document text) that is either valid with >= 2 definitions or a fragment, or carries a violation")
 ASSUMPTIONS = [
     "reading of 5.8.5 at a list literal written at a NON-list position (e.g. `[ $v ]` at a custom scalar): the items are typed "
@@ -44,6 +44,12 @@ ASSUMPTIONS = [
 TRUSTED = [
     "gen/valid_ops.py: validity BY CONSTRUCTION of the generated documents (the specification side of the oracle); "
     "gen/violations.py: each injector breaks exactly the labelled rule",
+    "the overlap theorems for the code /repo runs (Props/C06_overlap_memo*.lean, C06_head_memo.lean) are stated about "
+    "`overlapMemoRun` (memoised search folded over the typed enumeration); for the rule run ALONE it is proved equal to the "
+    "chain with the memoised search inside (`runM`, the model compared with the real validator): Props/C06_overlap_memo_chain.lean "
+    "`runM_alone_eq` (and still cross-checked on every rule-alone answer: `memo:alone-vs-chain`); inside the full 26-rule "
+    "chain the overlap rule additionally loses the selection sets below a node another rule skipped - modelled by `runM`, "
+    "not covered by a theorem",
 ]
 
 VALIDATE = REPO / "src/py_gql/validation/validate.py"
@@ -220,8 +226,13 @@ def check_transforms(ctx, world, doc, base, label, which=None, feature=""):
     fns = dict(vo.TRANSFORMS)
     out = []
     for name in names:
+        respelled = None
         if name == "respell":
-            text2 = vo.to_text(doc, respell_rng=ctx.rng)
+            # same draws, in the same order, as vo.to_text(doc, respell_rng=ctx.rng); the parts are kept for shrinking
+            toks = [t for d in doc["defs"] for t in vo.def_tokens(d)]
+            lead = ctx.rng.choice(["", " ", "\n", "# lead\n", ","])
+            respelled = (lead, toks, [ctx.rng.choice(vo.SEPS) for _ in toks])
+            text2 = respell_join(*respelled)
             doc2 = None
         else:
             doc2 = fns[name](ctx.rng, doc)
@@ -231,12 +242,17 @@ def check_transforms(ctx, world, doc, base, label, which=None, feature=""):
         ctx.stat("transform:" + name)
         out.append((name, doc2, text2, res))
         if res["outcome"].startswith("raise") or res["outcome"].startswith("noparse"):
-            if res["outcome"].startswith("noparse"):
+            if res["outcome"].startswith("noparse") and name == "respell":
+                # the same tokens separated by other ignored tokens must get the same verdict: a syntax error IS a change
+                respell_shrunk(ctx, world, vo.to_text(doc), respelled, base["outcome"], res["outcome"], label)
+            elif res["outcome"].startswith("noparse"):
                 ctx.fail("harness:noparse:" + name, "generated text does not parse", {"text": text2}, kind="correspondence")
             else:
                 raises(ctx, world, text2, res, label, feature)
             continue
-        if res["outcome"] != base["outcome"]:
+        if res["outcome"] != base["outcome"] and name == "respell":
+            respell_shrunk(ctx, world, vo.to_text(doc), respelled, base["outcome"], res["outcome"], label)
+        elif res["outcome"] != base["outcome"]:
             bad = res if res["outcome"] == "errors" else base
             ctx.fail("verdict-changed:%s:%s" % (name, "+".join(reporting(bad))),
                      "verdict %s -> %s under %s (%s)" % (base["outcome"], res["outcome"], name, label),
@@ -244,6 +260,89 @@ def check_transforms(ctx, world, doc, base, label, which=None, feature=""):
                       "label": label, "feature": feature, "verdict": base["outcome"], "verdict2": res["outcome"],
                       "rules": reporting(base), "rules2": reporting(res)})
     return out
+
+
+def sep_class(sep):
+    """stable name of a separator of `valid_ops.SEPS` (used in signatures)"""
+    if "#" in sep:
+        end = "CRLF" if sep.endswith("\r\n") else "CR" if sep.endswith("\r") else "LF" if sep.endswith("\n") else "EOF"
+        return "comment-ended-by-" + end
+    names = {" ": "space", "\t": "tab", "\n": "LF", "\r": "CR", ",": "comma", "\ufeff": "BOM"}
+    return "+".join(sorted({names.get(c, "U+%04X" % ord(c)) for c in sep})) or "empty"
+
+
+def respell_join(lead, toks, seps):
+    return lead + "".join(t + s for t, s in zip(toks, seps))
+
+
+def respell_shrunk(ctx, world, text, respelled, v1, v2, label):
+    """shrink a failing random re-spelling: every separator that is not needed for the verdict to differ from the
+    plain spelling's becomes one space; the signature names the classes of the separators that remain"""
+    lead, toks, seps = respelled
+    seps = list(seps)
+
+    def differs(lead, seps):
+        return real_chain(world.schema, respell_join(lead, toks, seps))["outcome"] != v1
+
+    if lead and differs("", seps):
+        lead = ""
+    for i in range(len(seps)):
+        if seps[i] != " ":
+            trial = seps[:i] + [" "] + seps[i + 1:]
+            if differs(lead, trial):
+                seps = trial
+    text2 = respell_join(lead, toks, seps)
+    v2 = real_chain(world.schema, text2)["outcome"]
+    rest = [x for x in seps if x != " "] + ([lead] if lead else [])
+    respell_failure(ctx, world.sdl, text, text2, v1, v2, label, seps=rest)
+
+
+def respell_failure(ctx, sdl, text, text2, v1, v2, label, sep=None, seps=None):
+    seps = [sep] if sep is not None else (seps or [])
+    cls = "+".join(sorted({sep_class(x) for x in seps})) or "plain"
+    ctx.fail("verdict-changed:respell:%s:%s->%s" % (cls, v1.split(":")[0], v2.split(":")[0]),
+             "verdict %s -> %s when the same tokens are separated by other ignored tokens (%s)" % (v1, v2, label),
+             {"kind": "respell", "sdl": sdl, "text": text, "text2": text2, "label": label, "verdict": v1, "verdict2": v2})
+
+
+RESPELL_SDL = "type Query { dog(id: Int): Dog }\ntype Dog { name: String barkVolume: Int }\n"
+RESPELL_DOCS = [
+    ("valid", "query Q ( $v : Int = 1 ) { dog ( id : $v ) { name ... F ... on Dog { barkVolume } } } "
+              "fragment F on Dog { barkVolume @include ( if : true ) }"),
+    ("invalid-last-definition", "query A { dog { name } } query B { dog { volume } }"),
+    ("invalid-first-definition", "query A { dog { volume } } query B { dog { name } }"),
+]
+
+
+def respell_probe(ctx):
+    """NAMED PROBE, independent of ctx.rng (deterministic in every run, seeded class C06-9): three fixed documents,
+    every separator of `valid_ops.SEPS` in turn (a) after every token, (b) only between the two definitions, (c) only
+    at the very end. The verdict (ok / errors; a syntax error counts as a third verdict) must be the one of the
+    single-space spelling."""
+    from py_gql import build_schema
+    from gen import valid_ops as vo
+    schema = build_schema(RESPELL_SDL)
+    for label, text in RESPELL_DOCS:
+        toks = text.split(" ")
+        base = real_chain(schema, text)
+        ctx.count()
+        if base["outcome"] not in ("ok", "errors") or (base["outcome"] == "ok") != (label == "valid"):
+            ctx.fail("harness:respell-probe-base:" + label, "probe document has an unexpected verdict",
+                     {"text": text, "verdict": base["outcome"]}, kind="correspondence")
+            continue
+        cut = max(i for i, t in enumerate(toks) if t in ("query", "fragment"))
+        for sep in dict.fromkeys(vo.SEPS):
+            variants = [("every-token", "".join(t + sep for t in toks)),
+                        ("between-definitions", " ".join(toks[:cut]) + sep + " ".join(toks[cut:])),
+                        ("at-end", text + sep)]
+            for where, text2 in variants:
+                res = real_chain(schema, text2)
+                ctx.count()
+                ctx.stat("respell-probe:" + sep_class(sep))
+                ctx.nontrivial(("respell-probe", label, where, sep))
+                if res["outcome"] != base["outcome"]:
+                    respell_failure(ctx, RESPELL_SDL, text, text2, base["outcome"], res["outcome"],
+                                    "probe:%s:%s" % (label, where), sep=sep)
 
 
 def one_document(ctx, world, size, collect):
@@ -357,6 +456,11 @@ def run_corpus(ctx, collect):
     # every pair is checked against the oracle; for the model correspondence all of them (thorough) or a sample (quick)
     keep = None if ctx.tier != "quick" else set(ctx.rng.sample(range(len(pairs["cases"])), min(160, len(pairs["cases"]))))
     run_cases(ctx, collect, pairs, "type-pairs", keep)
+    mm = memo_mode_table()
+    # direct oracle: every case; model correspondence: every invalid case, the valid twins in two of the six orders (quick)
+    keepm = None if ctx.tier != "quick" else {i for i, c in enumerate(mm["cases"])
+                                              if not c["spec_valid"] or c["sig"].endswith(("order012", "order210"))}
+    run_cases(ctx, collect, mm, "memo-modes", keepm)
 
 
 def run_cases(ctx, collect, data, tag, keep=None):
@@ -479,6 +583,89 @@ def type_pair_table():
     return _TYPE_PAIRS
 
 
+# ---------------------------------------------------------------------------
+# the (field map, fragment) memo of OverlappingFieldsCanBeMerged under BOTH exclusivity modes (seeded C06-11):
+# the same sub-selection is compared with the same fragment once under mutually exclusive parents (only response
+# shapes matter) and once under overlapping parents (names / arguments matter too), in either order. Exhaustive over
+# the order of the three same-key fields, the path to the fragment ((I) direct spread, (E) through another fragment,
+# (B) the set's own spread), the kind of conflict (different field / different arguments) and the wrapper (inline
+# fragments / named fragments); valid twins (all parents exclusive; strict comparison without conflict first).
+# Run on EVERY run (deterministic block, stable signatures); each case also carries a reordered twin so that the
+# perm_selections oracle sees an order-dependent verdict.
+# ---------------------------------------------------------------------------
+
+MEMO_MODES_SDL = ("type Query { pet: Pet }\n"
+                  "interface Pet { owner: Human }\n"
+                  "type Human { label: String nickname: String tag(n: Int): String }\n"
+                  "type Dog implements Pet { owner: Human }\n"
+                  "type Cat implements Pet { owner: Human }\n"
+                  "type Bird implements Pet { owner: Human }\n")
+
+_MEMO_MODES = None
+
+
+def memo_mode_table():
+    global _MEMO_MODES
+    import itertools
+    if _MEMO_MODES is not None:
+        return _MEMO_MODES
+    kinds = {"field": ("label", "label: nickname", "label"), "args": ("t: tag(n: 1)", "t: tag(n: 2)", "t: tag(n: 1)")}
+    cases = []
+
+    def doc(sels, frags, wrapper):
+        """sels: [(type, sub-selection text)] in order"""
+        extra = []
+        parts = []
+        for i, (ty, sub) in enumerate(sels):
+            if wrapper == "inline":
+                parts.append("... on %s { owner { %s } }" % (ty, sub))
+            else:
+                parts.append("...W%d" % i)
+                extra.append("fragment W%d on %s { owner { %s } }" % (i, ty, sub))
+        return "{ pet { %s } } %s" % (" ".join(parts), " ".join(frags + extra))
+
+    for kind, (plain, clash, same) in sorted(kinds.items()):
+        for path in ("I", "E"):
+            spread = "...Y" if path == "I" else "...X"
+            frags = ["fragment Y on Human { %s }" % clash] + (["fragment X on Human { ...Y }"] if path == "E" else [])
+            zfrags = frags + ["fragment Z on Human { %s }" % same]
+            for wrapper in ("inline", "named"):
+                fam = {
+                    # f1 (Dog, plain K), f2 (Cat, ...Y), f3 (Dog, ...Y): f1/f3 conflict whatever the order
+                    "excl-then-strict": ([("Dog", plain), ("Cat", spread), ("Dog", spread)], frags, False),
+                    # all three parents mutually exclusive: valid
+                    "all-exclusive": ([("Dog", plain), ("Cat", spread), ("Bird", spread)], frags, True),
+                    # strict comparison WITHOUT conflict (Z repeats K), exclusive one with a different field: valid
+                    "strict-ok-then-excl": ([("Dog", plain), ("Dog", "...Z"), ("Cat", spread)], zfrags, True),
+                }
+                for name, (sels, fr, ok) in sorted(fam.items()):
+                    for order in itertools.permutations(range(3)):
+                        text = doc([sels[i] for i in order], fr, wrapper)
+                        other = doc([sels[i] for i in reversed(order)], fr, wrapper)
+                        sig = "overlapping:memo-modes:%s:%s:%s:%s:order%s" % (name, kind, path, wrapper, "".join(map(str, order)))
+                        case = {"id": "memo:" + sig, "text": text, "spec_valid": ok, "sig": sig,
+                                "why": "same (field map, fragment) compared under mutually exclusive AND overlapping parents"}
+                        if not ok:
+                            # (the valid twins are enumerated in all six orders anyway)
+                            case["same_verdict_as"] = [{"text": other, "transform": "reorder_selections"}]
+                            case["rules"] = ["OverlappingFieldsCanBeMergedChecker"]
+                        cases.append(case)
+        # (B): the set's own spread, after an exclusive comparison of the same set with the same fragment
+        for wrapper in ("inline", "named"):
+            frags = ["fragment Y on Human { %s }" % clash]
+            sels = [("Dog", plain + " ...Y"), ("Cat", "...Y")]
+            for order in ((0, 1), (1, 0)):
+                text = doc([sels[i] for i in order], frags, wrapper)
+                other = doc([sels[i] for i in reversed(order)], frags, wrapper)
+                sig = "overlapping:memo-modes:own-spread:%s:B:%s:order%s" % (kind, wrapper, "".join(map(str, order)))
+                cases.append({"id": "memo:" + sig, "text": text, "spec_valid": False, "sig": sig,
+                              "rules": ["OverlappingFieldsCanBeMergedChecker"],
+                              "why": "a set compared with a fragment under exclusive parents, then with its own spread of it",
+                              "same_verdict_as": [{"text": other, "transform": "reorder_selections"}]})
+    _MEMO_MODES = {"sdl": MEMO_MODES_SDL, "cases": cases}
+    return _MEMO_MODES
+
+
 class CorpusWorld:
     def __init__(self, sdl, schema):
         self.sdl = sdl
@@ -497,6 +684,7 @@ class CorpusWorld:
 def run(ctx):
     collect = []   # (world, text, real result, label, feature) for the correspondence
     run_corpus(ctx, collect)
+    respell_probe(ctx)
     n_worlds = ctx.n(8, 40)
     docs_per_world = ctx.n(3, 6)
     budget = 17 if ctx.tier == "quick" else 175
@@ -710,6 +898,11 @@ def replay(ctx, data):
         return a["outcome"] == b["outcome"] and reporting(a) == reporting(b)
     if kind == "raises":
         return not real_verdict(schema, inp["text"]).startswith("raise")
+    if kind == "respell":
+        # the re-spelled text must parse and get the verdict of the plain spelling
+        a, b = real_chain(schema, inp["text"]), real_chain(schema, inp["text2"])
+        return a["outcome"] == b["outcome"] or a["outcome"].startswith("noparse") or a["outcome"].startswith("raise") \
+            or b["outcome"].startswith("raise")
     if kind == "transform":
         a, b = real_verdict(schema, inp["text"]), real_verdict(schema, inp["text2"])
         return a == b or a.startswith("raise") or b.startswith("raise")
